@@ -22,7 +22,9 @@ Inductive fstep :=
         (frame_mem : list N)            (* the CF_SIZE bytes at the new $fp after the step, as 75 big-endian words *)
         (code_ok : bool)                (* harness: bytes after the frame = code ++ zero padding *)
         (depth_after : N) (changed : list (N * N))
-| FRet (retd : bool) (rb ra : list N) (va vb : N) (depth_after : N) (changed : list (N * N)).
+| FRet (retd : bool) (fa : N)           (* register index of the instruction's field A *)
+       (rb ra : list N) (vb : N)       (* $rB before the step (RETD length; read before the gas charge) *)
+       (depth_after : N) (changed : list (N * N)).
 
 Record fcase := { fc_vm_hi : N; fc_steps : list fstep }.
 
@@ -63,11 +65,12 @@ Definition check_call (rb ra : list N) (to asset : bytes) (a b vb vd code_size :
 
 (* RET / RETD charge their own gas before returning: the charge is what $ggas lost in the step
    (gas accounting is C26's subject); the model runs on the registers after that charge *)
-Definition check_ret (p : pending) (retd : bool) (rb ra : list N) (va vb : N) : bool :=
+Definition check_ret (p : pending) (retd : bool) (fa : N) (rb ra : list N) (vb : N) : bool :=
   let charge := getr rb REG_GGAS - getr ra REG_GGAS in
   let r := upd (upd (regs_of_list rb) REG_CGAS (getr rb REG_CGAS - charge)) REG_GGAS (getr rb REG_GGAS - charge) in
   (getr ra REG_GGAS <=? getr rb REG_GGAS) && (charge <=? getr rb REG_CGAS) &&
-  match ret_regs r (Some (p_frame p)) va (if retd then vb else 0) with
+  (* RET / RETD read $rA after the charge (it differs from the value before only when rA is a gas register) *)
+  match ret_regs r (Some (p_frame p)) (r fa) (if retd then vb else 0) with
   | None => false
   | Some r' =>
       regs_eqb r' ra &&
@@ -92,11 +95,11 @@ Fixpoint check_steps (vm_hi : N) (stack : list pending) (steps : list fstep) : b
           forallb (fun c => (getr rb REG_SP <=? fst c) || (fst c + snd c <=? vm_hi)) ch &&
           check_steps vm_hi (p :: stack) rest
       end
-  | FRet retd rb ra va vb d ch :: rest =>
+  | FRet retd fa rb ra vb d ch :: rest =>
       match stack with
       | [] => (d =? 0) && check_steps vm_hi [] rest          (* the script's own return ends the run *)
       | p :: stack' =>
-          check_ret p retd rb ra va vb && (d =? lenN stack') &&
+          check_ret p retd fa rb ra vb && (d =? lenN stack') &&
           match ch with [] => true | _ => false end &&
           check_steps vm_hi stack' rest
       end
